@@ -91,7 +91,7 @@ def slice_ok(src, rel, kind, value):
 
 class ExprLexStream(Stream):
     name = "exprlex"
-    parallel = True
+    parallel = False  # cheap per case; a 16-process pool costs more than it saves
 
     def cases(self, ctx):
         rng = ctx.rng_for("exprlex")
@@ -182,7 +182,7 @@ def gen_liquid_body(rng, marker_text):
 
 class LiquidLinesStream(Stream):
     name = "liquidlines"
-    parallel = True
+    parallel = False  # cheap per case; a 16-process pool costs more than it saves
 
     def cases(self, ctx):
         rng = ctx.rng_for("liquidlines")
@@ -267,7 +267,7 @@ def independent_line_col(text, i):
 
 class ErrCtxStream(Stream):
     name = "errctx"
-    parallel = True
+    parallel = False  # cheap per case; a 16-process pool costs more than it saves
 
     def cases(self, ctx):
         rng = ctx.rng_for("errctx")
@@ -411,7 +411,7 @@ def real_lex(d, src):
 
 class LexSpansStream(Stream):
     name = "lexspans"
-    parallel = True
+    parallel = False  # cheap per case; a 16-process pool costs more than it saves
 
     def cases(self, ctx):
         rng = ctx.rng_for("lexspans")
@@ -510,7 +510,7 @@ def span_ok(src, index, name, root_is_path=False):
 class SpansStream(Stream):
     name = "spans"
     has_model = False
-    parallel = True
+    parallel = False  # cheap per case; a 16-process pool costs more than it saves
 
     def cases(self, ctx):
         rng = ctx.rng_for("spans")
@@ -613,7 +613,7 @@ def gen_malformed(rng):
 
 class ErrorsStream(Stream):
     name = "errors"
-    parallel = True
+    parallel = False  # cheap per case; a 16-process pool costs more than it saves
 
     def cases(self, ctx):
         rng = ctx.rng_for("errors")
